@@ -46,6 +46,13 @@ type funcSpec struct {
 	allowWrap bool
 	// errCtors: module functions that only build an error from a format (treated like fmt.Errorf), as "pkg.name"
 	errCtors []string
+	// alias: "x.f" -> "y": field f of the struct in local variable x holds the SAME reader as local variable y
+	// (the struct was built around it). The translation keeps them in step around every call on x.
+	alias map[string]string
+	// stopAt: an `if` whose condition has this source text ends the translation; stopRet is returned there instead
+	// (for a tail that is outside the fragment; what is assumed about it is said in DESIGN.md §5.3)
+	stopAt  string
+	stopRet []string
 }
 
 // The functions translated. Order matters only for readability: dependencies are emitted first automatically.
@@ -70,6 +77,10 @@ var funcSpecs = []funcSpec{
 	{rel: "", name: "slicesEqual"},
 	{rel: "internal/format", name: "(*StanzaReader).ReadStanza", abstract: []string{"format.DecodeString"}, allowWrap: true, errCtors: []string{"format.errorf"},
 		fuel: map[int]string{2: "(Go.len (r).r).toNat + 1"}},
+	{rel: "internal/format", name: "NewStanzaReader"},
+	{rel: "internal/format", name: "Parse", abstract: []string{"format.DecodeString"}, allowWrap: true, errCtors: []string{"format.errorf"},
+		fuel: map[int]string{1: "(Go.len rr).toNat + 1"}, alias: map[string]string{"sr.r": "rr"},
+		stopAt: "rr == input", stopRet: []string{"h", "rr", "none"}},
 	{rel: "", name: "multiUnwrap", abstract: []string{"errors.Is"}},
 	{rel: "", name: "(*ScryptIdentity).unwrap", abstract: []string{"format.DecodeString", "scrypt.Key", "age.aeadDecrypt"}},
 	{rel: "", name: "(*ScryptIdentity).Unwrap", abstract: []string{"errors.Is"}},
@@ -100,15 +111,16 @@ var stdlibPure = map[string]string{
 type unsupported struct{ msg string }
 
 type ftr struct {
-	pr      *Prog
-	specs   map[*types.Func]*funcSpec
-	done    map[*types.Func]bool
-	busy    map[*types.Func]bool
-	out     strings.Builder // finished definitions, dependency order
-	globs   map[types.Object]string
-	names   []string                      // Lean names of translated functions, for facts.json
-	absOf   map[*types.Func][]*types.Func // abstract callees of each translated function (they are its leading parameters)
-	structs map[*types.Named]string       // struct types emitted as Lean structures
+	pr        *Prog
+	specs     map[*types.Func]*funcSpec
+	done      map[*types.Func]bool
+	busy      map[*types.Func]bool
+	out       strings.Builder // finished definitions, dependency order
+	globs     map[types.Object]string
+	names     []string                      // Lean names of translated functions, for facts.json
+	absOf     map[*types.Func][]*types.Func // abstract callees of each translated function (they are its leading parameters)
+	structs   map[*types.Named]string       // struct types emitted as Lean structures
+	recvInout map[*types.Func]bool          // translated methods whose receiver is handed back as the last result
 }
 
 // per-function state
@@ -132,6 +144,7 @@ type fctx struct {
 	lc           *loopCtx
 	abstractUsed []*types.Func
 	deferred     []ast.Stmt // bodies of `defer func() { … }()` statements passed so far (function level only)
+	stopped      bool       // funcSpec.stopAt was reached: the remaining statements are not translated
 }
 
 type loopCtx struct {
@@ -491,6 +504,9 @@ func (c *fctx) exprAs(e ast.Expr, want types.Type) string {
 					return c.zero(e, want) // a nil *T result is never looked at by the callers of translated code when err != nil
 				}
 			}
+			if lt, ok := leanTypeOf(want); ok && strings.HasPrefix(lt, "(List ") {
+				return "[]" // a nil reader / byte source
+			}
 			return "none"
 		}
 	}
@@ -534,9 +550,9 @@ func (c *fctx) expr(e ast.Expr) string {
 		c.fail(e, "dereference of something other than a *[N]T parameter")
 	case *ast.UnaryExpr:
 		if x.Op == token.AND {
-			if cl, ok := ast.Unparen(x.X).(*ast.CompositeLit); ok && len(cl.Elts) == 0 {
+			if cl, ok := ast.Unparen(x.X).(*ast.CompositeLit); ok {
 				if _, isStruct := c.typeOf(cl).Underlying().(*types.Struct); isStruct {
-					return c.zero(e, c.typeOf(cl))
+					return c.structLit(cl)
 				}
 			}
 		}
@@ -569,6 +585,9 @@ func (c *fctx) expr(e ast.Expr) string {
 		return "(← Go.slice " + c.expr(x.X) + " " + lo + " " + hi + ")"
 	case *ast.CompositeLit:
 		t := c.typeOf(e)
+		if _, isStruct := t.Underlying().(*types.Struct); isStruct {
+			return c.structLit(x)
+		}
 		var elem types.Type
 		n := int64(-1)
 		switch u := t.Underlying().(type) {
@@ -622,6 +641,45 @@ func (c *fctx) expr(e ast.Expr) string {
 	}
 	c.fail(e, "expression %T has no translation", e)
 	return ""
+}
+
+// structLit: `T{}` or `T{f: v, …}` (keyed); unnamed fields get their zero value
+func (c *fctx) structLit(cl *ast.CompositeLit) string {
+	t := c.typeOf(cl)
+	nt, ok := t.(*types.Named)
+	if !ok {
+		c.fail(cl, "literal of an unnamed struct type")
+	}
+	st := nt.Underlying().(*types.Struct)
+	name, ok := c.t.structType(nt)
+	if !ok {
+		c.fail(cl, "struct type %s has no translation", nt.Obj().Name())
+	}
+	given := map[string]string{}
+	for _, el := range cl.Elts {
+		kv, ok := el.(*ast.KeyValueExpr)
+		if !ok {
+			c.fail(cl, "positional struct literal")
+		}
+		k := kv.Key.(*ast.Ident).Name
+		var ft types.Type
+		for i := 0; i < st.NumFields(); i++ {
+			if st.Field(i).Name() == k {
+				ft = st.Field(i).Type()
+			}
+		}
+		given[k] = c.exprAs(kv.Value, ft)
+	}
+	var fs []string
+	for i := 0; i < st.NumFields(); i++ {
+		f := st.Field(i)
+		v, ok := given[f.Name()]
+		if !ok {
+			v = c.zero(cl, f.Type())
+		}
+		fs = append(fs, fieldName(f.Name())+" := "+v)
+	}
+	return "({ " + strings.Join(fs, ", ") + " } : " + name + ")"
 }
 
 func (c *fctx) binary(at ast.Node, X ast.Expr, op token.Token, Y ast.Expr, opT types.Type) string {
@@ -813,7 +871,7 @@ func (c *fctx) call(x *ast.CallExpr) string {
 			if o.Pkg().Path() == "io" && o.Name() == "LimitReader" {
 				return "(Go.io_LimitReader " + c.expr(x.Args[0]) + " " + c.asInt(x.Args[1]) + ")"
 			}
-			if o.Pkg().Path() == "bufio" && o.Name() == "NewScanner" {
+			if o.Pkg().Path() == "bufio" && (o.Name() == "NewScanner" || o.Name() == "NewReader") {
 				return c.expr(x.Args[0])
 			}
 			if sel, ok := ast.Unparen(x.Fun).(*ast.SelectorExpr); ok {
@@ -1208,6 +1266,31 @@ func (c *fctx) assignedIn(n ast.Node) map[*types.Var]bool {
 						m[v] = true
 					}
 				}
+				// a translated method that hands its receiver back assigns it (and whatever is declared an alias of its fields)
+				if mf, ok := c.fi.Pkg.callee(s).(*types.Func); ok && mf != c.fi.Obj {
+					if fi := c.t.pr.Funcs[mf]; fi != nil && fi.Decl.Recv != nil && c.t.translatable(fi) {
+						c.t.translate(fi, c, s)
+						if c.t.recvInout[mf] {
+							if v := root(sel.X); v != nil {
+								m[v] = true
+								if c.spec != nil {
+									for k, y := range c.spec.alias {
+										if strings.HasPrefix(k, v.Name()+".") {
+											ast.Inspect(c.fi.Decl, func(n ast.Node) bool {
+												if id, ok := n.(*ast.Ident); ok && id.Name == y {
+													if yv, ok := c.info().Defs[id].(*types.Var); ok {
+														m[yv] = true
+													}
+												}
+												return true
+											})
+										}
+									}
+								}
+							}
+						}
+					}
+				}
 			}
 		case *ast.DeferStmt:
 			// the deferred closure's assignments happen in this function
@@ -1363,6 +1446,38 @@ func (c *fctx) assignTo(e *emitter, ind int, lhs ast.Expr, val string, define bo
 		c.fail(lhs, "assignment to %s", c.t.pr.text(c.fi.Pkg, lhs))
 	default:
 		c.fail(lhs, "assignment to %T", lhs)
+	}
+}
+
+// syncAlias: `x.f` and `y` are one reader (spec.alias): before a call on x copy y into x.f, afterwards copy x.f back
+func (c *fctx) syncAlias(e *emitter, ind int, recv ast.Expr, before bool) {
+	if c.spec == nil {
+		return
+	}
+	id, ok := ast.Unparen(recv).(*ast.Ident)
+	if !ok {
+		return
+	}
+	for k, y := range c.spec.alias {
+		parts := strings.SplitN(k, ".", 2)
+		if len(parts) != 2 || parts[0] != id.Name {
+			continue
+		}
+		x := c.nameOf(c.info().Uses[id])
+		var yv string
+		for obj, n := range c.names {
+			if v, ok := obj.(*types.Var); ok && v.Name() == y && v.Pkg() == c.fi.Pkg.Types {
+				yv = n
+			}
+		}
+		if yv == "" {
+			c.fail(recv, "alias target %s is not a local variable", y)
+		}
+		if before {
+			e.add(ind, fmt.Sprintf("%s := { %s with %s := %s }", x, x, fieldName(parts[1]), yv))
+		} else {
+			e.add(ind, fmt.Sprintf("%s := (%s).%s", yv, x, fieldName(parts[1])))
+		}
 	}
 }
 
@@ -1554,6 +1669,25 @@ func (c *fctx) stmt(e *emitter, ind int, s ast.Stmt) {
 		}
 		c.emitReturn(e, ind, c.retExpr(vals))
 	case *ast.IfStmt:
+		if c.spec != nil && c.spec.stopAt != "" && c.t.pr.text(c.fi.Pkg, st.Cond) == c.spec.stopAt {
+			if c.lc != nil {
+				c.fail(s, "stopAt inside a loop")
+			}
+			var vals []string
+			for _, v := range c.spec.stopRet {
+				found := v
+				for obj, n := range c.names {
+					if lv, ok := obj.(*types.Var); ok && lv.Name() == v && lv.Pkg() == c.fi.Pkg.Types {
+						found = n
+					}
+				}
+				vals = append(vals, found)
+			}
+			e.add(ind, "-- the rest of the function is outside the translated fragment (funcSpec.stopAt)")
+			c.emitReturn(e, ind, c.retExpr(vals))
+			c.stopped = true
+			return
+		}
 		if st.Init != nil {
 			c.stmt(e, ind, st.Init)
 		}
@@ -1629,6 +1763,30 @@ func (c *fctx) assign(e *emitter, ind int, st *ast.AssignStmt) {
 	}
 	if len(st.Rhs) != 1 {
 		c.fail(st, "assignment shape")
+	}
+	// a call of a translated method that hands its receiver back: results, then the receiver's new value
+	if call, ok := ast.Unparen(st.Rhs[0]).(*ast.CallExpr); ok {
+		if sel, ok := ast.Unparen(call.Fun).(*ast.SelectorExpr); ok {
+			if m, ok := c.fi.Pkg.callee(call).(*types.Func); ok {
+				if fi := c.t.pr.Funcs[m]; fi != nil && fi.Decl.Recv != nil && c.t.translatable(fi) {
+					c.t.translate(fi, c, call)
+					if c.t.recvInout[m] {
+						c.syncAlias(e, ind, sel.X, true)
+						t := c.tmp()
+						e.add(ind, "let "+t+" := "+c.expr(call))
+						proj := t
+						for i, l := range st.Lhs {
+							_ = i
+							c.assignTo(e, ind, l, proj+".1", define)
+							proj += ".2"
+						}
+						c.assignTo(e, ind, sel.X, proj, false)
+						c.syncAlias(e, ind, sel.X, false)
+						return
+					}
+				}
+			}
+		}
 	}
 	// a read from a *bufio.Reader: the value(s) and the reader's new state
 	if call, ok := ast.Unparen(st.Rhs[0]).(*ast.CallExpr); ok && len(st.Lhs) == 2 {
@@ -2157,6 +2315,9 @@ func (t *ftr) translate(fi *FuncInfo, from *fctx, at ast.Node) string {
 		e.add(1, l)
 	}
 	for _, s := range fi.Decl.Body.List {
+		if c.stopped {
+			break
+		}
 		c.stmt(e, 1, s)
 	}
 	// falling off the end of a function without results
@@ -2183,6 +2344,12 @@ func (t *ftr) translate(fi *FuncInfo, from *fctx, at ast.Node) string {
 	fmt.Fprintf(&t.out, " -/\ndef %s %s%s : Go.M %s := do\n%s\n\n", name, c.tyBinders(), strings.Join(params, " "), c.retTy, strings.Join(e.lines, "\n"))
 	fmt.Fprintf(&t.out, "def %s_errSites : Nat := %d\ndef %s_panicSites : Nat := %d\n\n", name, c.errN, name, c.panicN)
 	t.absOf[fi.Obj] = c.abstractUsed
+	if rv := sig.Recv(); rv != nil && c.isInout(rv) {
+		if len(c.inouts) != 1 {
+			c.fail(fi.Decl, "a method with an assigned receiver and other in-out parameters")
+		}
+		t.recvInout[fi.Obj] = true
+	}
 	t.done[fi.Obj] = true
 	delete(t.busy, fi.Obj)
 	t.names = append(t.names, name)
@@ -2203,7 +2370,7 @@ func recvTypeNameOf(fi *FuncInfo) string {
 func collectFuncs(pr *Prog, facts map[string]interface{}) *leanFile {
 	f := newLean("Funcs", "Selected small pure functions of the repository, TRANSLATED statement by statement (extract/funcs.go); semantics: AgeModel/GoSem.lean.")
 	t := &ftr{pr: pr, specs: map[*types.Func]*funcSpec{}, done: map[*types.Func]bool{}, busy: map[*types.Func]bool{}, globs: map[types.Object]string{},
-		absOf: map[*types.Func][]*types.Func{}, structs: map[*types.Named]string{}}
+		absOf: map[*types.Func][]*types.Func{}, structs: map[*types.Named]string{}, recvInout: map[*types.Func]bool{}}
 	curFtr = t
 	var failed []string
 	for i := range funcSpecs {
